@@ -500,17 +500,36 @@ def judge_on_disk(old_t, new_t, leaves, absent):
 _W = {}
 
 
+# families with a spelling of their own (for every seed): sibling names where one is a string prefix of the other;
+# symlink targets that differ in letter case only
+FIXED_SPELLING = {
+    "prefix3": {"names": ["a", "ab", "abc"]},
+    "case2": {"leaves": {"s1": {"link": "tgt"}, "s2": {"link": "Tgt"}}},
+}
+FIXED_SPECS = {
+    "prefix3": [((0, 1), ("x",)), ((1, 2), ("x",))],
+    "case2": [((0, 1), ("x", "s1", "s2")), ((0,), ("s1", "s2"))],
+}
+
+
+def fam_spelling(fam):
+    sp = _W["sp"]
+    fx = FIXED_SPELLING.get(fam, {})
+    return fx.get("names", sp["names"]), dict(sp["leaves"], **fx.get("leaves", {}))
+
+
 def worker_init(tier="quick", seed=0, slice_k=101):
     sp = spelling(seed)
     _W["sp"] = sp
     _W["slice_k"] = slice_k
-    _W["fam"] = {n: enumerate_trees(spec, sp["names"]) for n, spec in family_specs(tier).items()}
+    specs = dict(family_specs(tier), **FIXED_SPECS)
+    _W["fam"] = {n: enumerate_trees(spec, fam_spelling(n)[0]) for n, spec in specs.items()}
     _impl()
 
 
 def _input(fam, i, j, old_t, new_t, mode):
     sp = _W["sp"]
-    return {"family": fam, "i": i, "j": j, "old": old_t, "new": new_t, "mode": mode, "leaves": sp["leaves"], "absent": sp["absent"]}
+    return {"family": fam, "i": i, "j": j, "old": old_t, "new": new_t, "mode": mode, "leaves": fam_spelling(fam)[1], "absent": sp["absent"]}
 
 
 def check_row(item):
@@ -518,7 +537,7 @@ def check_row(item):
     fam, i = item
     trees = _W["fam"][fam]
     sp = _W["sp"]
-    leaves, absent, k = sp["leaves"], sp["absent"], _W["slice_k"]
+    leaves, absent, k = fam_spelling(fam)[1], sp["absent"], _W["slice_k"]
     n = len(trees)
     old_t = trees[i]
     out = {"pairs": 0, "different": 0, "nodes": 0, "gets": 0, "disk": 0, "disk_match_abstract": 0, "viol": {}}
